@@ -1,4 +1,4 @@
-import ElkVerif.Model.Bytecode.Verify
+import ElkVerif.Model.Bytecode.Abort
 import Driver.Util
 /-! domain `bc`
 * `bc<TAB>decode<TAB>hexcode<TAB>nvalues` → `ok o0,o1,…,end` | `err <pc> <class>` (mirror of Disassemble's loop)
@@ -37,7 +37,7 @@ def parseConst (s : String) : Option Const :=
   | ['z'] => some .nil
   | ['o'] => some .other
   | 'f' :: r => (String.ofList r).toNat?.map .fn
-  | 'c' :: r => (String.ofList r).toNat?.map .callSite
+  | 'c' :: r => (((String.ofList r).splitOn "~").head?.bind String.toNat?).map .callSite
   | 'i' :: r => (String.ofList r).toInt?.map .int
   | 'S' :: r =>
     match (String.ofList r).splitOn "." with
@@ -134,7 +134,36 @@ def statesOf (P : Prog) (k : Nat) (lax : Bool) : String :=
       let (acc, why) := exploreDbg P f { lax := lax } 100000 [St.entry f { lax := lax }] {} []
       s!"ok {joinWith " " (acc.reverse.map fun s => s!"{s.pc}:{joinWith "," (s.stk.map showAV)}")} !{why}"
 
+/-- method name carried by a call-site token `c<argc>~<name>` ("" otherwise) -/
+def callNameOf (tok : String) : String :=
+  match tok.toList with
+  | 'c' :: _ => match tok.splitOn "~" with
+    | [_, n] => n
+    | _ => ""
+  | _ => ""
+
+def parseCallNames (s : String) : Array (Array String) :=
+  ((splitOnNE s "|").map fun f =>
+    match f.splitOn ";" with
+    | [_, _, _, _, consts, _] => ((splitOnNE consts ",").map callNameOf).toArray
+    | _ => #[]).toArray
+
+def showNode (u : Abort.Node) : String := s!"{u.1}:{u.2}"
+
+def abortAnswer (P : Prog) (callNames : Array (Array String)) : String :=
+  let names := P.map (·.name)
+  let (r, missing) := Abort.checkProgram P names callNames
+  let m := if missing.isEmpty then "-" else showNats missing
+  match r with
+  | .ranked n e mr => s!"ok ranked nodes={n} edges={e} maxrank={mr} unverified={m}"
+  | .cycle c => s!"ok cycle {joinWith ">" (c.map showNode)} unverified={m}"
+  | .rejected => s!"ok rejected unverified={m}"
+
 def handle : List String → String
+  | ["abort", prog] =>
+    match parseProg prog with
+    | some P => abortAnswer P (parseCallNames prog)
+    | none => "bad-op"
   | ["states", mode, prog, k] =>
     match parseProg prog, k.toNat? with
     | some P, some k => statesOf P k (mode = "lax")
